@@ -1,5 +1,6 @@
 """Helpers for the higher-order / sequential composition properties (C10, C11, C12).
-(kind "subject" = hot source backed by a real reactivex Subject: late subscribers get the terminal at once.)
+(kind "subject" = hot source backed by a real reactivex Subject: late subscribers get the terminal at once;
+ kind "subsched" = cold source that runs on the scheduler handed down by subscribe(scheduler=...), like timer/interval.)
 
 Owned by the C10-C12 builder.  Three parts:
 
@@ -47,13 +48,14 @@ class TSource(_Logged):
         tls = spec.get("tls") or [spec["tl"]]
         super().__init__(lab, tls[0], name)
         self.kind = spec["kind"]
-        if self.kind not in ("cold", "sync", "hot", "leaky", "subject"):
+        if self.kind not in ("cold", "sync", "hot", "leaky", "subject", "subsched"):
             raise HarnessError(f"source kind {self.kind}")
         self.tls = [[list(m) for m in tl] for tl in tls]
         self.decode = decode or val
         self.deliv = []
         self.term = []
         self.observers = []  # hot: [(idx, observer)]
+        self.lost_sched = 0  # subsched: subscriptions that were not handed the subscription scheduler
         lab.sources.append(self)
         if self.kind == "hot":
             for t, kind, payload in self.tls[0]:
@@ -172,6 +174,19 @@ class TSource(_Logged):
         comp = CompositeDisposable()
         closed = [False]
         leaky = self.kind == "leaky"
+        sched = lab.sched
+        if self.kind == "subsched":
+            # a time-based inner without a scheduler of its own (like reactivex.timer/interval/delay): it runs on the
+            # scheduler handed down by subscribe(scheduler=...).  When the top-level subscription supplied the lab's
+            # scheduler (lab.expect_sched) and the operator did not hand it down, the real thing would run on the
+            # library default (real time): in virtual time nothing of it is ever seen.  Emulated by staying silent.
+            if scheduler is lab.sched:
+                pass
+            elif scheduler is None and not getattr(lab, "expect_sched", False):
+                pass
+            else:
+                self.lost_sched += 1
+                return Disposable(lambda: self._close(idx))
 
         def mk(kind, payload):
             def action(s, st_=None):
@@ -192,7 +207,7 @@ class TSource(_Logged):
                 if not closed[0]:
                     self._deliver(idx, observer, kind, payload)
             else:
-                comp.add(lab.sched.schedule_relative(lab.rel(t), mk(kind, payload)))
+                comp.add(sched.schedule_relative(lab.rel(t), mk(kind, payload)))
         return Disposable(dispose)
 
 
@@ -446,7 +461,9 @@ class SimMerge(_SimOp):
                     if self.outer_done and not self.queue:
                         self.sync_dequeue_after_outer_done += 1
                 if self.queue:
-                    self._go(self.queue.pop(0), True)
+                    nxt = self.queue.pop(0)
+                    nxt["dequeued"] = True
+                    self._go(nxt, True)
                 else:
                     self.active -= 1
                     if self.outer_done and self.active == 0:
@@ -730,8 +747,13 @@ def saturated_case(draw, max_c=3):
         inners.append({"kind": draw(st.sampled_from(["cold", "cold", "sync"])), "tl": _renumber(tl, 100 * i)})
     for j in range(n_q):
         i = n_slow + j
-        style = draw(st.sampled_from(["sync0", "sync0", "sync0", "cold0", "any"]))
-        if style == "any":
+        style = draw(st.sampled_from(["sync0", "sync0", "sync0", "cold0", "any", "timed", "timed"]))
+        if style == "timed":
+            tl = draw_timeline(draw, 2, 2, ["i0"], ["C", "C", "C", "E"], [f"e{i}"])
+            if not any(m[0] > 0 for m in tl):
+                tl = [[t + 1, k, p] for t, k, p in tl]
+            kind = "subsched"
+        elif style == "any":
             tl = draw_timeline(draw, 2, 2, ["i0"], ["C", "C", "E", None], [f"e{i}"])
             kind = draw(st.sampled_from(["cold", "sync"]))
         else:
